@@ -31,7 +31,7 @@ META = {
         'relative-epsilon fudge factors (finfo.resolution * 10) are taken as 0 (A1); KL conjugate: stationarity + convexity of -log (trusted)',
     ],
     'assumptions': ['A1', 'A2', 'A3', 'A5', 'A6', 'A7', 'sigma, lam, gamma > 0'],
-    'not_decided': ['proj_simplex / proj_l1 / ProximalLInfty (sorting), nuclear norm (SVD), KL cross entropy (Lambert W), group (product-space) proximals, '
+    'not_decided': ['proj_simplex / proj_l1 / ProximalLInfty (sorting), nuclear norm (SVD), KL cross entropy (Lambert W), group (product-space) proximals - bounded functional-pool stand-in only -, '
                     'combine_proximals / SeparableSum, proximal_composition; firm non-expansiveness and idempotence follow from optimality for convex f (Moreau 1965, trusted theorem)'],
 }
 
@@ -312,12 +312,26 @@ def units(tier, seed):
     us = [unit_pointwise(f, o) for f, o in POINTWISE]
     us += [unit_kl(False), unit_kl(True), unit_l2(False), unit_l2(True)]
     us += [unit_calculus(k) for k in CALC]
+    from contracts import grouplib
+    us.extend(grouplib.units())
     us.append(unit_functional_pool_bounded())
     us.append(unit_canary())
     return us
 
 
 def replay(ob):
+    if ob.get('unit', '').startswith('group/'):
+        from contracts import funcpool
+        pre = 'GroupL1Norm-2/' if 'proximal_l1_l2' in ob['unit'] else 'IndicatorGroupL1UnitBall-2/'
+        for nm in sorted(funcpool.pool()):
+            if nm.startswith(pre):
+                try:
+                    bad = funcpool.check_prox(nm)[0]
+                except Exception as e:
+                    bad = 'raised %s: %s' % (type(e).__name__, e)
+                if bad:
+                    return {'reproduced': True, 'detail': bad, 'input': {'functional': nm}}
+        return {'reproduced': False, 'detail': 'minimiser probes hold natively for the %s* pool instances' % pre}
     if ob.get('unit', '').startswith('functional-pool/'):
         from contracts import funcpool
         try:
